@@ -236,9 +236,23 @@ class SyncDrive(_BaseDrive):
                     '_thread', '_emit_server_stats'):
                 # the pub/sub listener is a service thread: never joined
                 self.threads.append(th)
+            if self.held_tasks is not None:
+                # schedule choice: the new thread gets its first time slice
+                # only after the thread that started it has done more work
+                self.held_tasks.append(th)
+                return th
             th.start()
             return th
+        self.held_tasks = None
         eio.start_background_task = start_background_task
+
+    def hold_tasks(self):
+        self.held_tasks = []
+
+    def release_tasks(self):
+        held, self.held_tasks = self.held_tasks or [], None
+        for th in held:
+            th.start()
 
     def call(self, fn, *a, **kw):
         r = fn(*a, **kw)
@@ -256,6 +270,9 @@ class SyncDrive(_BaseDrive):
         while self.threads:
             th = self.threads.pop()
             if th is threading.current_thread():
+                continue
+            if th.ident is None:
+                # held back (not started yet)
                 continue
             th.join(timeout)
             if th.is_alive():
